@@ -78,3 +78,70 @@ class _read(Contract):
         return [("len", l_len(c.result.t) == l_len(items)),
                 ("decoded", forall([j], z3.Implies(z3.And(0 <= j, j < l_len(items)), l_at(c.result.t, j) == dec(l_at(items, j))),
                                    patterns=[l_at(c.result.t, j), l_at(items, j)]))]
+
+
+@contract(_SQ + "append")
+class _append(Contract):
+    params = dict(self=STG, points=LItem, temporary=TBool)
+    defaults = dict(temporary=lambda ex: mk_bool(False))
+    modifies = ("items", "temp")
+    assumed = True
+
+    @staticmethod
+    def ensures(c):
+        o, n = c.old.self.t, c.self.t
+        pts = c.points.t
+        j = z3.Int(fresh_name("j"))
+
+        def appended(new, old):
+            return z3.And(l_len(new) == l_len(old) + l_len(pts),
+                          forall([j], z3.Implies(z3.And(0 <= j, j < l_len(old)), l_at(new, j) == l_at(old, j)), patterns=[l_at(new, j), l_at(old, j)]),
+                          forall([j], z3.Implies(z3.And(0 <= j, j < l_len(pts)), l_at(new, l_len(old) + j) == l_at(pts, j)), patterns=[l_at(pts, j)]))
+
+        return [("appended", z3.If(c.temporary.t,
+                                   z3.And(appended(n["temp"].t, o["temp"].t), n["items"].t == o["items"].t),
+                                   z3.And(appended(n["items"].t, o["items"].t), n["temp"].t == o["temp"].t)))]
+
+
+@contract(_SQ + "_swap_temp_with_primary")
+class _swap(Contract):
+    params = dict(self=STG)
+    modifies = ("items",)
+    assumed = True
+
+    @staticmethod
+    def ensures(c):
+        return [("primary_is_temp", c.self.t["items"].t == c.old.self.t["temp"].t)]
+
+
+@contract(_SQ + "reset")
+class _sreset(Contract):
+    params = dict(self=STG)
+    modifies = ("items",)
+    assumed = True
+
+    @staticmethod
+    def ensures(c):
+        return [("empty", l_len(c.self.t["items"].t) == 0)]
+
+
+@contract(_SQ + "_init_temp_storage")
+class _init_temp(Contract):
+    params = dict(self=STG)
+    modifies = ("temp",)
+    assumed = True
+
+    @staticmethod
+    def ensures(c):
+        return [("temp_empty", l_len(c.self.t["temp"].t) == 0)]
+
+
+@contract(_SQ + "_cleanup_temp_storage")
+class _cleanup_temp(Contract):
+    params = dict(self=STG)
+    modifies = ("temp",)
+    assumed = True
+
+    @staticmethod
+    def ensures(c):
+        return [("temp_empty", l_len(c.self.t["temp"].t) == 0)]
